@@ -5,10 +5,10 @@ package main
 
 import (
 	"fmt"
-	"os"
 	"go/ast"
 	"go/token"
 	"go/types"
+	"os"
 	"sort"
 	"strings"
 
@@ -44,7 +44,12 @@ func (c *FnCtx) computeLoopMods() {
 				}
 				if cc != nil {
 					a, b2 := c.E.callMod(c.F, cc)
-					ex = append(ex, a...)
+					for _, n := range a {
+						if strings.HasPrefix(n, "cb:") {
+							n = "*" // a call through one of this function's own parameters: unknown here
+						}
+						ex = append(ex, n)
+					}
 					fr = append(fr, b2...)
 				}
 				for _, h := range ex {
@@ -192,7 +197,19 @@ func (c *FnCtx) loopNames(l *Loop, phiVal func(*ssa.Phi) Val) map[string]Val {
 			names[phi.Name()] = pv
 		}
 	}
-	// range key/value names: find extracts of Next in loop body with DebugRefs
+	// `ranged`: the collection this loop ranges over (evaluated once, before the loop)
+	for _, ins := range l.Header.Instrs {
+		if nx, ok := ins.(*ssa.Next); ok {
+			if rg, ok := nx.Iter.(*ssa.Range); ok {
+				if v, ok := c.vals[rg.X]; ok {
+					if v.GT == nil {
+						v.GT = rg.X.Type()
+					}
+					names["ranged"] = v
+				}
+			}
+		}
+	}
 	return names
 }
 
